@@ -15,6 +15,7 @@ RULE = ('(universes) DynamicUniverse / StaticUniverse alone: entry maps over 1-8
         'entry != None and entry <= t} in map order; static returns its configured list at any time. (optimisers) '
         'fixed-weight returns its input unchanged; equal-weight (default and explicit scale) returns the same keys, '
         'every value scale/N, summing to the scale (1e-12), for 1-8 assets incl. single-asset and zero/negative input '
+        'weights, the same optimiser instances serving several dicts (same size / other assets included) '
         'weights. (sessions) full backtests: dynamic universe x SingleSignalAlphaModel x every schedule x both sizers '
         'x dense markets whose data exist from before every entry; entries before the start, exactly on a rebalance '
         'instant, one minute after it, mid-range, after the end, None. Oracle: every recorded allocation row at '
